@@ -18,6 +18,7 @@ for d in /tmp/benign/$b/out/*/; do
   alarms=""
   for p in $props; do
     o=$(/verif/bin/sidecheck -property $p -dir $t/repo -verif $t/verif 2>&1)
+    if ! echo "$o" | grep -q ' tier='; then alarms="$alarms $p:[CHECKER-ERROR]"; fi
     if echo "$o" | grep -q '^VIOLATION'; then alarms="$alarms $p:[$(echo "$o" | grep -E '^(VIOLATED|UNDECIDED)' | awk '{print $2}' | sort -u | head -4 | tr '\n' ' ')]"; fi
   done
   if [ -z "$alarms" ]; then
